@@ -54,6 +54,7 @@ pub fn stark_commit<Layout: LayoutTrait>(
 ) -> (r: Result<StarkCommitment<Layout::InteractionElements>, Error>)
     requires
         commit_pre(config), // [C18:stark-commit-after-config-validation]
+        Layout::composition_pre(public_input, stark_domains.trace_domain_size@), // [C18:stark-commit-after-public-input-validation]
     ensures
         r.is_ok() ==> ({
             let c = r->Ok_0;
